@@ -183,4 +183,48 @@ CLAIMED.update({
     },
 })
 
+CLAIMED.update({
+    'C05': {
+        'text': 'Formula-level proof by term rewriting on the source expressions (sympy, library calls as uninterpreted functions): required '
+                'impact == (t_ppf(sig,n-2)+t_ppf(power,n-2)) * design-side TBR scale at the planning displacement; half-width == t_ppf(sig,n-2) '
+                '* scale; point estimate == n_test*(dy - b*dx); the impact factors as K(parameters)*std(y,ddof=2)*sqrt(1-corr^2) (linear in the '
+                'unit, shift invariant, even and strictly decreasing in |corr|); cached fields on this path obey the invalidation discipline.',
+        'design_ref': 'DESIGN.md section 4, C05',
+        'note': 'Not decided: agreement with tbr.TBR\'s statsmodels-based covariance propagation on data; the lemma std(y,ddof=2)*sqrt(1-r^2) = '
+                'residual sd is assumed, not mechanised.' + TB,
+        'technique': 'straight-line value numbering to symbolic normal forms + algebraic identity checking (no execution)',
+    },
+    'C06': {
+        'text': 'Information flow (raw frame enters only through sorted per-(group,date) sums; groups selected by label), provenance of every '
+                'summary column from the one posterior object with the documented formulas, quantile ordering by an interval domain with a case '
+                'split on tails, non-negativity of the t scale for every rescale (sign domain), expression-level shape of the posterior '
+                '(df, location, t^2*m\'Vm + t*sigma^2), design-side closed form (C05) and cache discipline.',
+        'design_ref': 'DESIGN.md section 4, C06',
+        'note': 'Not decided: numeric equality with the closed form on data, row-order independence inside pandas/statsmodels. Known finding: '
+                'one-tailed summary with level < 0.5 reports lower > estimate.' + TB,
+        'technique': 'taint/flow rules + interval and sign abstract domains + expression provenance',
+    },
+    'C07': {
+        'text': 'Fixed-cost column algebra (rescale*cost == 1 by sympy, bounds*cost with matching suffixes, caller\'s tails/level/threshold), every '
+                'random draw seeded from random_state and no global RNG, cache-invalidation discipline of TBRiROAS/TBR across fit(), provenance '
+                'of the scenario predicate (pre-period costs + control test-period costs, order of magnitude < -10), quantile ordering and scale '
+                'sign for the bounds of both branches.',
+        'design_ref': 'DESIGN.md section 4, C07',
+        'note': 'Not decided: lower <= estimate <= upper in the variable-cost branch (mean of a ratio of t-variates), unit equivariance of '
+                'simulated figures. Known findings: one-tailed reports with level < 0.5.' + TB,
+        'technique': 'column-algebra table (sympy) + RNG-seeding rule + must-reset typestate + interval domain',
+    },
+    'C18': {
+        'text': 'Linear identities of the effect-series report by value numbering (counterfactual + difference == observed for the estimate and '
+                'with crossed bounds; fixed-cost branch degenerate), pointwise bounds = pre-period residuals followed by first differences of the '
+                'quantiles of the same posterior object that gives the cumulative bounds, cumulative estimate = cumsum of the same causal effect '
+                'on experiment dates, quantile ordering (interval domain), validating container with both guards, sorted aggregation of the '
+                'analysis data and cache discipline across fit().',
+        'design_ref': 'DESIGN.md section 4, C18',
+        'note': 'Not decided: monotonicity of the posterior scale in t (pointwise ordering), numeric equality with posterior quantiles on the last '
+                'date. Known finding: level < 0.5 with tails=1 makes the container raise ValueError.' + TB,
+        'technique': 'value numbering to linear identities (sympy) + reaching-definition provenance + interval domain',
+    },
+})
+
 NOT_APPLICABLE = {}
